@@ -195,6 +195,10 @@ func (p *LogPredicate) Validate() error {
 
 func (p *LogPredicate) Match(log *types.Log) (bool, error) {
 	value := p.LogValueRef.GetValue(log)
+	if value == nil {
+		// the log does not contain the referenced value
+		return false, nil
+	}
 	return p.ValuePredicate.Match(value)
 }
 
